@@ -108,6 +108,44 @@ def check_truncate(case):
 
 
 @st.composite
+def conc_case(draw):
+    n = draw(st.integers(2, 3))
+    streams = [[[draw(st.sampled_from([0, 1, 30, 400, 3000])), draw(st.sampled_from(KINDS)), draw(st.integers(0, 999))]
+                for _ in range(draw(st.integers(0, 3)))] for _ in range(n)]
+    return {'codec': draw(st.sampled_from(['gzip', 'zstd'])), 'streams': streams,
+            'cuts': [sorted(draw(st.lists(st.integers(0, 1000000), max_size=5))) for _ in range(n)],
+            'sched': draw(st.lists(st.integers(0, 5), max_size=40)), 'shared_op': draw(st.booleans())}
+
+
+def check_concurrent(case):
+    """Several compress / decompress subscriptions alive at once with interleaved chunk delivery: each stream round-trips."""
+    codec = case['codec']
+    ctx = dict(case)
+    originals = [[make_chunk(s) for s in specs] for specs in case['streams']]
+    cop, dop = CODECS[codec].compress(), CODECS[codec].decompress()
+    rc = drive.interleaved(originals, (lambda k: cop) if case['shared_op'] else (lambda k: CODECS[codec].compress()), case['sched'])
+    comps = []
+    for k, r in enumerate(rc):
+        H.require_clean(r, '%s compress, stream %d of %d concurrent ones' % (codec, k, len(rc)), **ctx)
+        comp = b''.join(r.items)
+        try:
+            if reference_decompress(codec, comp) != b''.join(originals[k]):
+                raise Violation('stream %d compressed concurrently with others decompresses to other data' % k, **ctx)
+        except Violation:
+            raise
+        except Exception as e:
+            raise Violation('stream %d compressed concurrently with others is not a valid %s file: %r' % (k, codec, e), **ctx)
+        comps.append(rechunk(comp, case['cuts'][k]))
+    rd = drive.interleaved(comps, (lambda k: dop) if case['shared_op'] else (lambda k: CODECS[codec].decompress()), list(reversed(case['sched'])))
+    for k, r in enumerate(rd):
+        H.require_clean(r, '%s decompress, stream %d of %d concurrent ones' % (codec, k, len(rd)), **ctx)
+        if b''.join(r.items) != b''.join(originals[k]):
+            raise Violation('stream %d decompressed concurrently with others differs from its input' % k, **ctx)
+    nonempty = sum(1 for o in originals if b''.join(o))
+    return {'nontrivial': nonempty >= 2 and len(case['sched']) >= 4, 'labels': [codec, 'streams=%d' % len(originals), 'shared-op' if case['shared_op'] else 'own-op']}
+
+
+@st.composite
 def chunk_specs(draw, big):
     n = draw(st.sampled_from([0, 1, 2, 3, 5]))
     sizes = st.sampled_from([0, 1, 7, 100, 1000, 5000] + ([70000, 140000, 300000] if big else []))
@@ -134,6 +172,8 @@ def subs(tier):
             doc='compress -> re-chunk (as emitted / generated cuts / byte by byte + trailing empty chunk) -> decompress; reference decoders'),
         Sub('truncate', check_truncate, gen=trunc_case, examples={'quick': 150, 'thorough': 4000},
             doc='every proper prefix of the compressed stream makes decompress fail without completing'),
+        Sub('concurrent', check_concurrent, gen=conc_case, examples={'quick': 500, 'thorough': 30000},
+            doc='2-3 compress / decompress subscriptions alive at once (own or shared operator objects), chunks delivered interleaved'),
     ] + ([] if tier != 'thorough' else [
         Sub('fuzz', check_roundtrip, fuzz='c16', fuzz_runs={'thorough': 480000},
             doc='atheris/libFuzzer campaign: codec, chunk specs and re-chunking decoded from the fuzzer bytes, same round-trip oracle'),
